@@ -12,9 +12,38 @@ open Tmcg
 /-- number of table entries actually computed by `precompute … t` -/
 def tableSize (t : Nat) : Nat := max 1 (min t Gen.TMCG_MAX_FPOWM_T)
 
+/-- the only fact about the generated constant that the proofs use -/
+theorem max_fpowm_pos : 0 < Gen.TMCG_MAX_FPOWM_T := by decide
+
+/-- entries of `precomputeGo`: the start value, then iterated squares mod `p`, then zeros -/
+theorem precomputeGo_getD (p : Int) : ∀ (n : Nat) (cur : Int) (i : Nat),
+    (precomputeGo p n cur).getD i 0 =
+      if i < n then (if i = 0 then cur else cur ^ (2 ^ i) % p) else 0 := by
+  intro n
+  induction n with
+  | zero => intro cur i; simp [precomputeGo]
+  | succ n ih =>
+    intro cur i
+    cases i with
+    | zero => simp [precomputeGo]
+    | succ j =>
+      simp only [precomputeGo, List.getD_cons_succ, ih, Nat.succ_lt_succ_iff, Nat.succ_ne_zero,
+        if_false]
+      by_cases hj : j < n
+      · simp only [hj, if_true]
+        have key : (cur * cur % p) ^ (2 ^ j) % p = cur ^ (2 ^ (j + 1)) % p := by
+          have h1 : (cur * cur % p) ^ (2 ^ j) ≡ (cur * cur) ^ (2 ^ j) [ZMOD p] :=
+            (Int.mod_modEq _ _).pow _
+          rw [h1.eq, pow_succ, pow_mul', pow_two]
+        by_cases hj0 : j = 0
+        · subst hj0; simp [pow_two]
+        · simp only [hj0, if_false]
+          exact key
+      · simp [hj]
+
 theorem precompute_ok (g p : Int) (t : Nat) (hp : p ≠ 0) :
     ∃ T, precompute g p t = .ok T := by
-  sorry
+  unfold precompute; simp [hp]
 
 /-- entries of a precomputed table: `g` itself, then iterated squares mod `p`, then zeros -/
 theorem precompute_get (g p : Int) (t : Nat) (hp : p ≠ 0) (T : Table)
@@ -22,7 +51,114 @@ theorem precompute_get (g p : Int) (t : Nat) (hp : p ≠ 0) (T : Table)
     T.get 0 = g ∧
     (∀ i, 0 < i → i < tableSize t → T.get i = g ^ (2 ^ i) % p) ∧
     (∀ i, tableSize t ≤ i → T.get i = 0) := by
-  sorry
+  unfold precompute at hT
+  simp only [hp, if_false] at hT
+  injection hT with hT
+  subst hT
+  have hpos : 0 < tableSize t := by unfold tableSize; omega
+  refine ⟨?_, ?_, ?_⟩
+  · simp only [Table.get, precomputeGo_getD]
+    simp [show 0 < max 1 (min t Gen.TMCG_MAX_FPOWM_T) from hpos]
+  · intro i hi hlt
+    simp only [Table.get, precomputeGo_getD]
+    have : i < max 1 (min t Gen.TMCG_MAX_FPOWM_T) := hlt
+    simp [this, Nat.ne_of_gt hi]
+  · intro i hle
+    simp only [Table.get, precomputeGo_getD]
+    have : ¬ i < max 1 (min t Gen.TMCG_MAX_FPOWM_T) := Nat.not_lt.mpr hle
+    simp [this]
+
+/-! ### the multiplication loop -/
+
+theorem low_bit_split (y n : Nat) : y % 2 ^ (n + 1) = y % 2 + 2 * (y / 2 % 2 ^ n) := by
+  rw [pow_succ', Nat.mod_mul]
+
+/-- invariant of `mulLoop`: starting at bit `i`, `n` further bits of `x` are consumed; the
+    accumulator is untouched when all of them are clear (it is *not* reduced then), otherwise
+    it is multiplied by the matching power of `g` and reduced -/
+theorem mulLoop_spec (T : Table) (p g : Int) (x : Nat) : ∀ (n i : Nat) (res : Int),
+    (∀ j, j < i + n → T.get j ≡ g ^ (2 ^ j) [ZMOD p]) →
+    mulLoop T p x n i res =
+      if (x / 2 ^ i) % 2 ^ n = 0 then res
+      else (res * g ^ ((x / 2 ^ i) % 2 ^ n * 2 ^ i)) % p := by
+  intro n
+  induction n with
+  | zero => intro i res _; simp [mulLoop, Nat.mod_one]
+  | succ n ih =>
+    intro i res htab
+    unfold mulLoop
+    rw [ih (i + 1) _ (fun j hj => htab j (by omega))]
+    have hdiv : x / 2 ^ (i + 1) = x / 2 ^ i / 2 := by
+      rw [Nat.div_div_eq_div_mul, pow_succ]
+    have hbit : tstbit x i = decide ((x / 2 ^ i) % 2 = 1) := by
+      unfold tstbit; rw [Nat.shiftRight_eq_div_pow]
+    rw [hdiv, low_bit_split, hbit]
+    have hti : T.get i ≡ g ^ (2 ^ i) [ZMOD p] := htab i (by omega)
+    generalize x / 2 ^ i = y
+    generalize hm : y / 2 % 2 ^ n = m
+    rcases Nat.mod_two_eq_zero_or_one y with h | h
+    · simp only [h, zero_add]
+      by_cases hm0 : m = 0
+      · simp [hm0]
+      · have : 2 * m ≠ 0 := by omega
+        simp only [hm0, this, if_false]
+        have : m * 2 ^ (i + 1) = 2 * m * 2 ^ i := by rw [pow_succ]; ring
+        simp [this]
+    · have h12 : 1 + 2 * m ≠ 0 := by omega
+      simp only [h, h12, decide_true, if_true, if_false]
+      have h1 : res * T.get i % p ≡ res * g ^ (2 ^ i) [ZMOD p] :=
+        (Int.mod_modEq _ _).trans (Int.ModEq.mul_left _ hti)
+      by_cases hm0 : m = 0
+      · simp only [hm0, if_true, mul_zero, add_zero, one_mul]
+        exact Int.ModEq.mul_left _ hti
+      · simp only [hm0, if_false]
+        have h2 := Int.ModEq.mul_right (g ^ (m * 2 ^ (i + 1))) h1
+        have h3 : res * g ^ (2 ^ i) * g ^ (m * 2 ^ (i + 1)) = res * g ^ ((1 + 2 * m) * 2 ^ i) := by
+          rw [mul_assoc, ← pow_add]
+          congr 2
+          rw [pow_succ]; ring
+        rw [h3] at h2
+        exact h2
+
+theorem natAbs_lt_two_pow_bitlen (x : Int) : x.natAbs < 2 ^ bitlen x := by
+  unfold bitlen
+  by_cases h : x.natAbs = 0
+  · simp [h]
+  · simp only [h, if_false]
+    exact Nat.lt_log2_self
+
+theorem table_modEq (g p : Int) (t : Nat) (hp : p ≠ 0) (T : Table)
+    (hT : precompute g p t = .ok T) :
+    ∀ j, j < tableSize t → T.get j ≡ g ^ (2 ^ j) [ZMOD p] := by
+  obtain ⟨h0, h1, _⟩ := precompute_get g p t hp T hT
+  intro j hj
+  rcases Nat.eq_zero_or_pos j with rfl | hpos
+  · rw [h0]; simp
+  · rw [h1 j hpos hj]; exact Int.mod_modEq _ _
+
+theorem mulLoop_full (T : Table) (p g : Int) (x n : Nat) (hp : 1 < p)
+    (htab : ∀ j, j < n → T.get j ≡ g ^ (2 ^ j) [ZMOD p]) (hx : x < 2 ^ n) :
+    mulLoop T p x n 0 1 = g ^ x % p := by
+  rw [mulLoop_spec T p g x n 0 1 (by simpa using htab)]
+  simp only [pow_zero, Nat.div_one, Nat.mod_eq_of_lt hx, mul_one, one_mul]
+  by_cases h0 : x = 0
+  · subst h0
+    simp only [if_true, pow_zero]
+    exact (Int.emod_eq_of_lt (by norm_num) hp).symm
+  · simp [h0]
+
+theorem mulLoop_bitlen (g p : Int) (t : Nat) (hp : 1 < p) (T : Table)
+    (hT : precompute g p t = .ok T) (x : Int) (hlen : bitlen x ≤ tableSize t) :
+    mulLoop T p x.natAbs (bitlen x) 0 1 = g ^ x.natAbs % p :=
+  mulLoop_full T p g x.natAbs (bitlen x) hp
+    (fun j hj => table_modEq g p t (by omega) T hT j (by omega))
+    (natAbs_lt_two_pow_bitlen x)
+
+theorem bitlen_le_max {x : Int} {t : Nat} (hlen : bitlen x ≤ tableSize t) :
+    bitlen x ≤ Gen.TMCG_MAX_FPOWM_T := by
+  have := max_fpowm_pos
+  unfold tableSize at hlen
+  omega
 
 /-- `tmcg_mpz_fpowm` on its table base, exponent within the table:
     plain modular exponentiation, inverse power for negative exponents -/
@@ -33,12 +169,49 @@ theorem fpowm_spec (g p : Int) (t : Nat) (hp : 1 < p) (T : Table)
       else match invm (g ^ x.natAbs % p) p with
         | none => .error .runtimeError
         | some r => .ok r := by
-  sorry
+  have hp0 : p ≠ 0 := by omega
+  have hg : T.get 0 = g := (precompute_get g p t hp0 T hT).1
+  unfold fpowm
+  simp only [hg, ne_eq, not_true_eq_false, if_false, bitlen_le_max hlen, if_true, hp0, false_and,
+    mulLoop_bitlen g p t hp T hT x hlen]
+  by_cases hx : x < 0
+  · simp only [hx, not_le.mpr hx, if_true, if_false]
+    cases invm (g ^ x.natAbs % p) p <;> rfl
+  · simp [hx, not_lt.mp hx]
 
 theorem fpowmUi_spec (g p : Int) (t : Nat) (hp : 1 < p) (T : Table)
     (hT : precompute g p t = .ok T) (x : Nat) (hlen : bitlen x ≤ tableSize t) :
     fpowmUi T g x p = .ok (g ^ x % p) := by
-  sorry
+  have hp0 : p ≠ 0 := by omega
+  have hg : T.get 0 = g := (precompute_get g p t hp0 T hT).1
+  unfold fpowmUi
+  have := mulLoop_bitlen g p t hp T hT x hlen
+  simp only [Int.natAbs_natCast] at this
+  simp [hg, hp0, this]
+
+/-- the `bar` component of the always-multiply loop does not influence the result -/
+theorem fsLoop_fst (T : Table) (p : Int) (x : Nat) : ∀ (n i : Nat) (res bar : Int),
+    (fsLoop T p x n i res bar).1 = mulLoop T p x n i res := by
+  intro n
+  induction n with
+  | zero => intro i res bar; simp [fsLoop, mulLoop]
+  | succ n ih =>
+    intro i res bar
+    unfold fsLoop mulLoop
+    by_cases h : tstbit x i <;> simp [h, ih]
+
+/-- a dummy operation `b * r * b⁻¹ mod p` returns `r` when `r` is already reduced -/
+theorem unit_conj {p : Int} (r b f : Int) (h0 : 0 ≤ r) (h1 : r < p)
+    (hbf : b * f ≡ 1 [ZMOD p]) : (b * r % p) * f % p = r := by
+  have h : (b * r % p) * f ≡ r [ZMOD p] := by
+    have h2 : (b * r % p) * f ≡ b * r * f [ZMOD p] := Int.ModEq.mul_right _ (Int.mod_modEq _ _)
+    have h3 : b * r * f = r * (b * f) := by ring
+    rw [h3] at h2
+    have h4 : r * (b * f) ≡ r * 1 [ZMOD p] := Int.ModEq.mul_left _ hbf
+    rw [mul_one] at h4
+    exact h2.trans h4
+  rw [h.eq]
+  exact Int.emod_eq_of_lt h0 h1
 
 /-- `tmcg_mpz_fspowm` (always-multiply variant with dummy operations): same value as `fpowm`
     whenever the power is invertible, `runtime_error` otherwise (for either sign) -/
@@ -48,19 +221,96 @@ theorem fspowm_spec (g p : Int) (t : Nat) (hp : 1 < p) (T : Table)
       match invm (g ^ x.natAbs % p) p with
       | none => .error .runtimeError
       | some r => .ok (if 0 ≤ x then g ^ x.natAbs % p else r) := by
-  sorry
+  have hp0 : p ≠ 0 := by omega
+  have hg : T.get 0 = g := (precompute_get g p t hp0 T hT).1
+  unfold fspowm
+  simp only [hg, ne_eq, not_true_eq_false, if_false, bitlen_le_max hlen, if_true, hp0]
+  generalize hbar0 : (if x < 0 then (0:Int) else -x) = bar0
+  have hfst := fsLoop_fst T p x.natAbs (bitlen x) 0 1 bar0
+  rw [mulLoop_bitlen g p t hp T hT x hlen] at hfst
+  rcases hfs : fsLoop T p x.natAbs (bitlen x) 0 1 bar0 with ⟨res, bar⟩
+  rw [hfs] at hfst
+  simp only at hfst
+  subst hfst
+  simp only
+  rcases hinv : invm (g ^ x.natAbs % p) p with _ | foo
+  · rfl
+  · simp only
+    obtain ⟨hf0, hf1, -⟩ := invm_some hinv
+    rw [abs_of_pos (by omega : 0 < p)] at hf1
+    have hr0 : 0 ≤ g ^ x.natAbs % p := Int.emod_nonneg _ hp0
+    have hr1 : g ^ x.natAbs % p < p := Int.emod_lt_of_pos _ (by omega)
+    generalize (if x < 0 then g ^ x.natAbs % p else foo) = baz
+    generalize hr : (if x < 0 then foo else g ^ x.natAbs % p) = r1
+    have h0 : 0 ≤ r1 := by rw [← hr]; split <;> assumption
+    have h1 : r1 < p := by rw [← hr]; split <;> assumption
+    have one : (1 : Int) * 1 ≡ 1 [ZMOD p] := by rw [mul_one]
+    have hfin : r1 = if 0 ≤ x then g ^ x.natAbs % p else foo := by
+      rw [← hr]
+      by_cases hx : x < 0
+      · simp [hx, not_le.mpr hx]
+      · simp [hx, not_lt.mp hx]
+    rw [← hfin]
+    rcases hb : invm bar p with _ | ib <;> rcases hz : invm baz p with _ | iz <;> simp only
+    · rw [unit_conj r1 1 1 h0 h1 one, unit_conj r1 1 1 h0 h1 one]
+    · rw [unit_conj r1 1 1 h0 h1 one, unit_conj r1 baz iz h0 h1 (invm_some hz).2.2]
+    · rw [unit_conj r1 bar ib h0 h1 (invm_some hb).2.2, unit_conj r1 1 1 h0 h1 one]
+    · rw [unit_conj r1 bar ib h0 h1 (invm_some hb).2.2,
+        unit_conj r1 baz iz h0 h1 (invm_some hz).2.2]
 
 /-- wrong base is refused by all three table routines -/
 theorem wrong_base (T : Table) (m x p : Int) (h : m ≠ T.get 0) :
     fpowm T m x p = .error .invalidArgument ∧ fspowm T m x p = .error .invalidArgument ∧
     fpowmUi T m x.toNat p = .error .invalidArgument := by
-  sorry
+  unfold fpowm fspowm fpowmUi
+  simp [h]
 
 /-- exponents longer than `TMCG_MAX_FPOWM_T` bits are refused -/
 theorem exponent_too_large (T : Table) (x p : Int) (h : Gen.TMCG_MAX_FPOWM_T < bitlen x) :
     fpowm T (T.get 0) x p = .error .invalidArgument ∧
     fspowm T (T.get 0) x p = .error .invalidArgument := by
-  sorry
+  have h' : ¬ bitlen x ≤ Gen.TMCG_MAX_FPOWM_T := Nat.not_le.mpr h
+  unfold fpowm fspowm
+  simp [h']
+
+/-! ### `tmcg_mpz_spowm` -/
+
+theorem baz_eq (m p : Int) (hp : 0 < p) (xx : Nat) :
+    ((powm (m % (p.natAbs : Int)).toNat xx p.natAbs : Nat) : Int) = m ^ xx % p := by
+  rw [powm_eq]
+  push_cast
+  rw [abs_of_pos hp, Int.toNat_of_nonneg (Int.emod_nonneg _ (ne_of_gt hp))]
+  exact ((Int.mod_modEq m p).pow xx).eq
+
+theorem gcd_emod_left (a p : Int) : Int.gcd (a % p) p = Int.gcd a p := by
+  rw [Int.gcd_comm, Int.gcd_comm a, Int.emod_def]
+  exact Int.gcd_sub_mul_left_right ..
+
+theorem gcd_eq_one_of_mul_modEq_one {a b p : Int} (h : a * b ≡ 1 [ZMOD p]) : Int.gcd a p = 1 := by
+  have h1 : p ∣ 1 - a * b := by
+    have := Int.modEq_iff_dvd.mp h
+    exact this
+  have hda : ((Int.gcd a p : Nat) : Int) ∣ a := Int.gcd_dvd_left ..
+  have hdp : ((Int.gcd a p : Nat) : Int) ∣ p := Int.gcd_dvd_right ..
+  have h2 : ((Int.gcd a p : Nat) : Int) ∣ 1 := by
+    have h3 := dvd_add (hdp.trans h1) (hda.mul_right b)
+    simpa using h3
+  have : (Int.gcd a p : Nat) ∣ 1 := by exact_mod_cast h2
+  exact Nat.dvd_one.mp this
+
+theorem gcd_pow_left_iff (m p : Int) (k : Nat) (hk : 0 < k) :
+    Int.gcd (m ^ k) p = 1 ↔ Int.gcd m p = 1 := by
+  rw [Int.gcd_def, Int.gcd_def, Int.natAbs_pow]
+  exact Nat.coprime_pow_left_iff hk _ _
+
+theorem step2 {p : Int} (a b c : Int) (h : b * c ≡ 1 [ZMOD p]) :
+    (a * b % p) * c % p ≡ a [ZMOD p] := by
+  have h1 : (a * b % p) * c % p ≡ (a * b % p) * c [ZMOD p] := Int.mod_modEq _ _
+  have h2 : (a * b % p) * c ≡ a * b * c [ZMOD p] := Int.ModEq.mul_right _ (Int.mod_modEq _ _)
+  have h3 : a * b * c ≡ a * 1 [ZMOD p] := by
+    rw [mul_assoc]; exact Int.ModEq.mul_left _ h
+  rw [mul_one] at h3
+  exact (h1.trans h2).trans h3
 
 /-- `tmcg_mpz_spowm` (constant-time variant, after the repair of finding F6): for an odd
     modulus and a base coprime to it, the plain power for every exponent (the inverse power
@@ -68,7 +318,64 @@ theorem exponent_too_large (T : Table) (x p : Int) (h : Gen.TMCG_MAX_FPOWM_T < b
 theorem spowm_spec (m x p : Int) (hp : 1 < p) (hodd : p % 2 = 1) (hm : Int.gcd m p = 1) :
     ∃ r, spowm m x p = .ok r ∧ 0 ≤ r ∧ r < p ∧
       (if 0 ≤ x then r = m ^ x.natAbs % p else r * m ^ x.natAbs % p = 1) := by
-  sorry
+  have hp0 : p ≠ 0 := by omega
+  have hpp : 0 < p := by omega
+  unfold spowm
+  have hne : ¬ p % 2 = 0 := by omega
+  simp only [hne, if_false]
+  generalize hxx : (if x = 0 then 1 else x.natAbs) = xx
+  rw [baz_eq m p hpp xx]
+  have hxxpos : 0 < xx := by
+    rw [← hxx]; split
+    · exact Nat.one_pos
+    · exact Int.natAbs_pos.mpr ‹_›
+  have hcop : Int.gcd (m ^ xx % p) p = 1 := by
+    rw [gcd_emod_left]; exact (gcd_pow_left_iff m p xx hxxpos).mpr hm
+  obtain ⟨foo, hfoo⟩ := invm_isSome_of_coprime hp0 hcop
+  obtain ⟨hf0, hf1, hfc⟩ := invm_some hfoo
+  rw [abs_of_pos hpp] at hf1
+  have hfc' : foo * (m ^ xx % p) ≡ 1 [ZMOD p] := by rw [mul_comm]; exact hfc
+  obtain ⟨i1, hi1⟩ := invm_isSome_of_coprime hp0 (gcd_eq_one_of_mul_modEq_one hfc')
+  have hi1c := (invm_some hi1).2.2
+  simp only [hfoo, hi1]
+  generalize hr0 : (if x < 0 then foo else if 0 < x then m ^ xx % p else (xx : Int)) = r0
+  generalize hbar : (if 0 < x then -x else (-1 : Int)) = bar
+  suffices fin : ∀ i2 bar' : Int, bar' * i2 ≡ 1 [ZMOD p] → ∃ r,
+      Except.ok (ε := Err)
+        (r0 * foo % p * i1 % p * bar' % p * i2 % p * (m ^ xx % p) % p * foo % p) = Except.ok r ∧
+      0 ≤ r ∧ r < p ∧
+        if 0 ≤ x then r = m ^ x.natAbs % p else r * m ^ x.natAbs % p = 1 by
+    rcases hb : invm bar p with _ | ib
+    · exact fin 1 1 (by rw [mul_one])
+    · exact fin ib bar (invm_some hb).2.2
+  intro i2 bar' hbc
+  have hres : r0 * foo % p * i1 % p * bar' % p * i2 % p * (m ^ xx % p) % p * foo % p = r0 % p := by
+    have e1 := step2 r0 foo i1 hi1c
+    have e2 := step2 (r0 * foo % p * i1 % p) bar' i2 hbc
+    have e3 := step2 (r0 * foo % p * i1 % p * bar' % p * i2 % p) (m ^ xx % p) foo hfc
+    have := ((e3.trans e2).trans e1).eq
+    rw [Int.emod_emod_of_dvd _ (dvd_refl p)] at this
+    exact this
+  refine ⟨r0 % p, by rw [hres], Int.emod_nonneg _ hp0, Int.emod_lt_of_pos _ hpp, ?_⟩
+  rcases lt_trichotomy x 0 with hx | hx | hx
+  · have hxx' : xx = x.natAbs := by rw [← hxx]; simp [ne_of_lt hx]
+    have : r0 = foo := by rw [← hr0]; simp [hx]
+    subst this
+    simp only [not_le.mpr hx, if_false]
+    rw [Int.emod_eq_of_lt hf0 hf1, ← hxx']
+    have h1 : r0 * m ^ xx ≡ r0 * (m ^ xx % p) [ZMOD p] :=
+      Int.ModEq.mul_left _ (Int.mod_modEq _ _).symm
+    rw [(h1.trans hfc').eq]
+    exact Int.emod_eq_of_lt (by norm_num) hp
+  · subst hx
+    have hxx' : xx = 1 := by rw [← hxx]; simp
+    have : r0 = 1 := by rw [← hr0, hxx']; simp
+    subst this
+    simp
+  · have hxx' : xx = x.natAbs := by rw [← hxx]; simp [ne_of_gt hx]
+    have : r0 = m ^ xx % p := by rw [← hr0]; simp [hx, not_lt.mpr (le_of_lt hx)]
+    simp only [le_of_lt hx, if_true, this, ← hxx']
+    exact Int.emod_emod_of_dvd _ (dvd_refl p)
 
 theorem spowm_even (m x p : Int) (h : p % 2 = 0) : spowm m x p = .error .invalidArgument := by
   unfold spowm; simp [h]
@@ -76,6 +383,19 @@ theorem spowm_even (m x p : Int) (h : p % 2 = 0) : spowm m x p = .error .invalid
 /-- a base that is not a unit is refused with `runtime_error` (never a wrong value) -/
 theorem spowm_not_coprime (m x p : Int) (hp : 1 < p) (hodd : p % 2 = 1) (hm : Int.gcd m p ≠ 1) :
     spowm m x p = .error .runtimeError := by
-  sorry
+  have hpp : 0 < p := by omega
+  unfold spowm
+  have hne : ¬ p % 2 = 0 := by omega
+  simp only [hne, if_false]
+  generalize hxx : (if x = 0 then 1 else x.natAbs) = xx
+  rw [baz_eq m p hpp xx]
+  have hxxpos : 0 < xx := by
+    rw [← hxx]; split
+    · exact Nat.one_pos
+    · exact Int.natAbs_pos.mpr ‹_›
+  have hcop : Int.gcd (m ^ xx % p) p ≠ 1 := by
+    rw [gcd_emod_left]; exact fun h => hm ((gcd_pow_left_iff m p xx hxxpos).mp h)
+  have hnat : 1 < p.natAbs := by omega
+  rw [(invm_eq_none_iff hnat).mpr hcop]
 
 end Tmcg.Powm
